@@ -6305,6 +6305,9 @@ class Choice:
         for node in self.nodes:
             dependency = self.kconfig._make_and(dependency, node.dep)
         self.defaults = [(sym, dependency)]
+        # The new default's condition may name options none of the choice's own conditions named so far (the
+        # dependencies of an additional, promptless definition): they must invalidate the choice when they change.
+        _depend_on(self, dependency)
         # Invalidate recursively to propagate the change to dependent symbols
         self._rec_invalidate()
 
